@@ -39,7 +39,7 @@ class C04(F.PropCheck):
                    'e-mail configured (otherwise the device never registers)', 'not in configuration mode / firmware update',
                    'uptime polled at least once before the first wrap of the 32-bit microsecond counter',
                    'reading: direct replies to server requests (set-value result, channel-state result, calcfg result, config result) are not device-originated traffic']
-    rule = ('histories of 1-4 sessions (wifi up, connect callback, register result ok / 28 refusal codes / silence / noise, local api calls, server '
+    rule = ('histories of 1-4 sessions (wifi up, connect callback, register result ok / all defined refusal codes + aimed 32-bit values (k*256+3, k*65536+3, k*2^24+3, negatives, extremes) / silence / noise, local api calls, server '
             'messages incl. cut and split frames and garbage, session end by disconnect callback / stalled link / silence / wifi down / nothing) '
             'with random noise events (all event kinds) inserted with probability 0..1; dead-connection send result in {-12,-11,-5,-7,0}; '
             'lateness scripts; aged devices; non-trivial = at least one connect callback delivered; distinct by sha256 of the event text')
@@ -158,7 +158,18 @@ class C04(F.PropCheck):
         return v
 
     # ---------------- generators
-    REFUSALS = [0, 1, 2, 4, 5, 6, 7, 8, 9, 10, 11, 12, 13, 14, 15, 17, 18, 19, 20, 21, 22, 23, 26, 32, 37, 39, 99, -1]
+    DEFINED = [0, 1, 2, 4, 5, 6, 7, 8, 9, 10, 11, 12, 13, 14, 15, 17, 18, 19, 20, 21, 22, 23, 24, 25, 26, 27, 28, 29, 30, 31, 32, 33, 34, 35,
+               36, 37, 38, 39, 40, 41]
+    def refusal_codes(self):
+        """refusal codes over the whole domain of the 32-bit signed field: every defined code, codes congruent to TRUE (3) or to another
+        defined code modulo 2^8 / 2^16 / 2^24 (a narrowed comparison would take them for success / for that code), negatives, extremes"""
+        t = K()['RESULTCODE_TRUE']; c = list(self.DEFINED) + [99, -1, -2, -3, -253, -256 + t, 2**31 - 1, -2**31, 2**31 - 256 + t, -2**31 + t]
+        for k in (1, 2, 3, 127, 128, 255): c += [k * 256 + t, k * 65536 + t, k * 256 + 5, k * 65536 + 8]
+        for k in (1, 2, 127): c += [k * 2**24 + t, k * 2**24 + 14]
+        c += [-(k * 256) + t for k in (1, 2, 255)] + [-(65536) + t, -(2**24) + t]
+        return [x for x in c if x != t and -2**31 <= x < 2**31]
+    @property
+    def REFUSALS(self): return self.refusal_codes()
     def gen_msg(self, rng, rr):
         k = rng.random()
         if k < 0.22: return reg_result(3, rng.choice([10, 10, 10, 0, 3, 5, 6, 11, 20, 30, 50, 60, 120, 255]), rr), 'regok'
